@@ -2,6 +2,7 @@ import Sudachi.Proofs.Lattice
 import Sudachi.Proofs.LatticeRec
 import Sudachi.Proofs.LatticeI32
 import Sudachi.Proofs.LatticeLex
+import Sudachi.Proofs.TotalPathCost
 import Sudachi.Props.C04
 /-!
 # C02 — The chosen segmentation is a minimum-cost lattice path (Viterbi optimality)
@@ -488,6 +489,58 @@ example : Total.I16Conn (fun _ _ => 32767) ∧ (2 : Nat) ≤ 32767 ∧
   intro n hn
   simp only [List.mem_cons, List.not_mem_nil, or_false] at hn
   rcases hn with rfl | rfl <;> simp [Total.NodeOk]
+
+/-- **the path `fill_top_path` returns costs the minimum `connect_eos` stored** - the executed fixed-width model
+(`Model/Total.lean`: checked `i32` additions, `as u16` end boundary, `as u32` row index of the back-pointer).  For candidates
+inside a text of at most 65535 characters, fewer than 2^32 of them ending at any one boundary: when `build_lattice` and
+`connect_eos` succeed with minimum `c` and back-pointer `(pe, pi)`, the walk from `(pe, pi)` returns a path (entries in text
+order) that is a COST CHAIN from BOS - every stored total is the previous total + connection cost + word cost - and `c` is
+the sum of connection and word costs recomputed along that path (BOS connection included) plus the connection to EOS.
+This is the clause the `u16` row index of the pinned tree broke (ROW-WRAP, repaired by 9fb3dd8): the totals were right, the
+back-pointer named another entry of the row (`C03.row_index_u16_wraps_counterexample`); the proof uses the row bound exactly
+where the stored index has to be the index (`Total.insert_costInv`, `asU32_id`). -/
+theorem chosen_path_cost_is_stored_minimum (len : Nat) (hlen : len ≤ 65535) (hlen0 : 1 ≤ len) (nodes : List Node)
+    (hnodes : ∀ n ∈ nodes, n.b < n.e ∧ n.e ≤ len)
+    (hcnt : ∀ e, nodes.countP (fun n => n.e == e) ≤ 4294967295)
+    (rows : Total.Rows) (ents : List Total.Entry)
+    (hb : Total.buildAll Total.addI32 Total.I32_MAX conn nodes (Total.reset len) [] = .ok (rows, ents))
+    (c : Int) (pe pi : Nat) (he : Total.connectEos Total.addI32 Total.I32_MAX conn rows len = .ok (c, pe, pi)) :
+    ∃ path, Total.topPath rows (len + 1) (pe, pi) [] = .ok path ∧ Total.ChainFrom conn bos.r 0 path ∧
+      c = Total.pathCostFrom conn bos.r path + conn (Total.chainEnd bos.r 0 path).1 0 :=
+  Total.chosen_path_cost conn len hlen nodes hnodes hlen0 hcnt rows ents hb c pe pi he
+
+/-- **C02 for the executed fixed-width lattice: the returned path is a cheapest path.**  Under the side condition of
+`i32_lattice_eq_model` (connection costs and word costs in `i16`, candidates non-empty and inside a text of 1..32767
+characters) and fewer than 2^32 candidates per boundary: if the unbounded model's optimum is `v`
+(`eosCost … = some v`: the minimum over ALL chains of candidates from BOS to EOS, `viterbi_min` / `eos_attained` /
+`no_cheaper_covering`), then the `i32`/`u32` lattice builds, `connect_eos` reports `v`, and `fill_top_path` returns a path
+whose cost RECOMPUTED from word costs and connection costs (BOS and EOS connection included) is `v`. -/
+theorem chosen_path_is_cheapest (hconn : Total.I16Conn conn) (len : Nat) (hlen : len ≤ 32767) (hlen0 : 1 ≤ len)
+    (F : List Node) (hF : ∀ n ∈ F, Total.NodeOk len n)
+    (hcnt : ∀ e, F.countP (fun n => n.e == e) ≤ 4294967295)
+    (v : Int) (hopt : eosCost conn (build conn F init) len = some v) :
+    ∃ rows ents pe pi path,
+      Total.buildAll Total.addI32 Total.I32_MAX conn F (Total.reset len) [] = .ok (rows, ents) ∧
+      Total.connectEos Total.addI32 Total.I32_MAX conn rows len = .ok (v, pe, pi) ∧
+      Total.topPath rows (len + 1) (pe, pi) [] = .ok path ∧ Total.ChainFrom conn bos.r 0 path ∧
+      v = Total.pathCostFrom conn bos.r path + conn (Total.chainEnd bos.r 0 path).1 0 := by
+  obtain ⟨rows, ents, h1, _, _, h4⟩ := i32_lattice_eq_model conn hconn len hlen F hF
+  obtain ⟨j, hj⟩ := ((argmin_spec conn (build conn F init len) (eosNode len) v).1).mpr hopt
+  rw [hj] at h4
+  obtain ⟨path, p1, p2, p3⟩ := chosen_path_cost_is_stored_minimum conn len (by omega) hlen0 F
+    (fun n hn => ⟨(hF n hn).1, (hF n hn).2.1⟩) hcnt rows ents h1 v len (Total.asU32 j) h4
+  exact ⟨rows, ents, len, Total.asU32 j, path, h1, h4, p1, p2, p3⟩
+
+/-- non-vacuity of `chosen_path_is_cheapest`: two positions, three candidates; the optimum -20 is the two-word chain -/
+example : eosCost (fun _ _ => 0) (build (fun _ _ => 0) [⟨0, 1, 0, 0, -10⟩, ⟨0, 2, 0, 0, -5⟩, ⟨1, 2, 0, 0, -10⟩] init) 2 = some (-20) ∧
+    (∀ n ∈ [(⟨0, 1, 0, 0, -10⟩ : Node), ⟨0, 2, 0, 0, -5⟩, ⟨1, 2, 0, 0, -10⟩], Total.NodeOk 2 n) ∧
+    (∀ e, [(⟨0, 1, 0, 0, -10⟩ : Node), ⟨0, 2, 0, 0, -5⟩, ⟨1, 2, 0, 0, -10⟩].countP (fun n => n.e == e) ≤ 4294967295) := by
+  refine ⟨by decide, ?_, ?_⟩
+  · intro n hn
+    simp only [List.mem_cons, List.not_mem_nil, or_false] at hn
+    rcases hn with rfl | rfl | rfl <;> simp [Total.NodeOk]
+  · intro e
+    exact Nat.le_trans List.countP_le_length (by decide)
 
 /-- non-vacuity: three positions, five overlapping candidates, a negative word cost and negative connection costs -/
 example :
